@@ -238,6 +238,16 @@ theorem king_first_capture (g : Game) (mv : Move) (occ : BB) (pd : Piece) (hc : 
   subst hocc
   exact king_capture_safe g.board hc g.player mv.src mv.dst pd hsrc hd hpd hsafe
 
+/-- **see_king_capture**: every king capture the generator emits is judged favourable — the generator's own test says
+the target is undefended (`kingCaptures_safe`, `king_capture_safe`), and `see_undefended` applies -/
+theorem see_king_capture (g : Game) (hc : Board.Consistent g.board) (king : Sq) (theirs : BB) (m : Move) (pd : Piece)
+    (hm : m ∈ Gen.kingCaptures g king theirs) (hk : g.board.pieceAt king = some ⟨.king, g.player⟩)
+    (hd : g.board.pieceAt m.dst = some pd) (hpd : pd.player = g.player.other) : see g m 0 = some true := by
+  obtain ⟨hs, hnep, hsafe⟩ := kingCaptures_safe g king theirs m hm
+  subst hs
+  exact see_undefended g m ⟨.king, g.player⟩ pd hk hd hnep
+    (king_capture_safe g.board hc g.player m.src m.dst pd hk hd hpd hsafe)
+
 /-- **spec_is_swaplist**: the independent mailbox computation the `see` stream compares against (`See.swapValue`)
 is the same fold `swapAbs`, over the capturers *it* finds on the mailbox board (`See.seq`) — so `see_swaplist`
 and this leave exactly one thing to the stream: that the two sequences agree on tie-free positions -/
@@ -306,3 +316,4 @@ end Tcheran.Props.C20
 #print axioms Tcheran.Props.C20.spec_is_swaplist
 #print axioms Tcheran.Props.C20.kingCaptures_safe
 #print axioms Tcheran.Props.C20.king_first_capture
+#print axioms Tcheran.Props.C20.see_king_capture
